@@ -825,6 +825,36 @@ theorem hexDigit_ne_quote (n : Nat) : hexDigit n ≠ '\'' := by
     obtain ⟨m, rfl⟩ : ∃ m, n = 16 + m := ⟨n - 16, by omega⟩
     simp [hexDigit, List.getD]
 
+theorem hexDigit_ne_percent (n : Nat) : hexDigit n ≠ '%' := by
+  by_cases h : n < 16
+  · revert n; decide
+  · have : 16 ≤ n := by omega
+    obtain ⟨m, rfl⟩ : ∃ m, n = 16 + m := ⟨n - 16, by omega⟩
+    simp [hexDigit, List.getD]
+
+theorem hexlify_no_percent (b : List Nat) : '%' ∉ hexlify b := by
+  induction b with
+  | nil => simp [hexlify]
+  | cons x b ih =>
+    simp only [hexlify, List.mem_cons, not_or]
+    exact ⟨fun e => hexDigit_ne_percent _ e.symm, fun e => hexDigit_ne_percent _ e.symm, ih⟩
+
+/-- text without `%` is sent unchanged under every paramstyle -/
+theorem expandPercent_noPercent (style : Style) (t : Str) (h : '%' ∉ t) : expandPercent style t = some t := by
+  by_cases hp : style.percent = true
+  · have := scanP_noPercent t [] h
+    simp only [List.append_nil, scanP, Option.map_some] at this
+    simp [expandPercent, hp, this, litsOnly_lits]
+  · have hp' : style.percent = false := by simpa using hp
+    simp [expandPercent, hp']
+
+theorem intStr_head (i : Int) : ∃ c r, intStr i = c :: r ∧ c ≠ 'n' ∧ c ≠ '\'' ∧ c ≠ 'X' := by
+  obtain ⟨c, r, h, _, hd⟩ := natDigits_head_ne_minus i.natAbs
+  unfold intStr
+  split
+  · exact ⟨'-', _, rfl, by decide, by decide, by decide⟩
+  · refine ⟨c, r, h, ?_, ?_, ?_⟩ <;> (intro e; subst e; exact absurd hd (by decide))
+
 theorem unhexlify_hexlify (b : List Nat) (h : ∀ x ∈ b, x < 256) : unhexlify (hexlify b) = some b := by
   induction b with
   | nil => rfl
